@@ -546,6 +546,57 @@ def cancel_case(rnd, cid, p=BN128):
     return Case(cid, cfg, b.ins, {"shape": "cancel", "op": f"pattern{pat}", "kinds": b.kinds[y], "malformed": False})
 
 
+def reuse_case(rnd, cid, p=BN128):
+    """the SAME secret register is used by a bit-splitting operation twice: first inside a guarded region (condition 0: the
+    region is dead, errors are suppressed there; condition 1; or no region), then again after it.  The operand lies inside,
+    on the boundary of, or outside [0, 2^bitlength): whatever happened to the object inside a dead region, the later use
+    must give Python's value or raise"""
+    cfg = cfg_for(rnd, p=p)
+    if cfg["bl"] < 4:
+        cfg["bl"] = rnd.choice([4, 8, 16])
+    bl = cfg["bl"]; half = 1 << (bl - 1); full = 1 << bl
+    b = Builder(rnd, cfg)
+    cls = rnd.choice(["inside", "inside", "negative", "negative", "wide", "wide", "boundary"])
+    v = {"inside": rnd.randrange(0, half), "negative": -rnd.randrange(1, half), "wide": rnd.randrange(full, 4 * full + 2),
+         "boundary": rnd.choice([half - 1, half, full - 1, full, -half, -1])}[cls]
+    x = b.emit(f"mk {rnd.choice(['priv', 'priv', 'pub'])} r{b.int_lit(v)}", "L")
+    y = b.operand(rnd.choice("LLI"), value=rnd.randrange(0, min(half, 64)))
+    e = b.operand("L", value=rnd.randrange(0, 3))
+
+    def bitop():
+        c = rnd.choice(["rshift", "rshift", "and", "or", "xor", "rand", "invert", "to_bits", "to_bits_w", "check_positive", "pow", "lshift"])
+        if c == "rshift":
+            return b.emit(f"bin rshift r{x} r{b.int_lit(rnd.randrange(0, 3))}", "?"), c
+        if c in ("and", "or", "xor"):
+            return b.emit(f"bin {c} r{x} r{y}", "?"), c
+        if c == "rand":
+            return b.emit(f"bin and r{y} r{x}", "?"), "and"
+        if c == "invert":
+            return b.emit(f"un invert r{x}", "?"), c
+        if c == "to_bits":
+            return b.emit(f"call to_bits r{x}", "?"), c
+        if c == "to_bits_w":
+            return b.emit(f"call to_bits r{x} r{b.int_lit(rnd.choice([bl, bl - 1, bl + 1]))}", "?"), "to_bits"
+        if c == "check_positive":
+            return b.emit(f"call check_positive r{x}", "?"), c
+        # x as a secret exponent / shift count (split into bits by the square-and-multiply loop)
+        return b.emit(f"bin {c} r{e} r{x}", "?"), c
+    region = rnd.choice(["dead", "dead", "dead", "live", "none"])
+    used = []
+    if region != "none":
+        g = b.operand(rnd.choice("LB"), value=0 if region == "dead" else 1)
+        b.emit(f"genter r{g}", "N")
+    for _ in range(rnd.randrange(1, 3)):
+        used.append(bitop()[1])
+    if region != "none":
+        b.emit("gleave", "N")
+    for _ in range(rnd.randrange(1, 3)):
+        r, nm = bitop(); used.append(nm)
+        if b.ins[r].startswith(("bin", "un")) and rnd.random() < 0.5:
+            b.emit(f"call val r{r}", "I")
+    return Case(cid, cfg, b.ins, {"shape": "reuse", "op": "+".join(sorted(set(used))), "kinds": f"{cls}:{region}", "malformed": cls != "inside"})
+
+
 def generate(rnd, n, prefix, mix=None, p=BN128):
     """mix: list of (weight, generator function)"""
     mix = mix or [(5, op_case), (2, edge_case), (1, unop_case), (2, method_case), (1, ite_case), (2, chain_case), (1, guarded_case),
